@@ -22,7 +22,7 @@ def second_opinion(smt2, timeout_s):
     text = smt2
     if '(check-sat)' not in text:
         text += '\n(check-sat)\n'
-    for name, cmd in (('cvc5-1.0.3', ['/usr/bin/cvc5', '--lang=smt2', f'--tlimit={timeout_s * 1000}']),
+    for name, cmd in (('cvc5-1.0.3', ['/usr/bin/cvc5', '--lang=smt2', '--strings-exp', f'--tlimit={timeout_s * 1000}']),
                       ('z3-4.8.12', ['/usr/bin/z3', f'-T:{timeout_s}'])):
         if not os.path.exists(cmd[0]):
             continue
